@@ -116,6 +116,10 @@ bool XMLFormatter::inEscapeList(const XMLFormatter::EscapeFlags escStyle
     ***/
     if (fIsXML11)
     {
+        // NEL and LSEP are line ends in XML 1.1 (2.11): written literally they are read back as #xA
+        if (toCheck == chNEL || toCheck == chLineSeparator)
+            return true;
+
         // for XML11
         if ( XMLChar1_1::isControlChar(toCheck, 0) &&
             !XMLChar1_1::isWhitespace(toCheck, 0)   )
